@@ -400,3 +400,404 @@ B('g14_path_joined_twice', ['C14'], 'R14.e',
   (ST, "            if not isinstance(path, (str, bytes)):\n                path = '/'.join(path)\n            full_path = find_file(self.search_paths, path)\n",
        "            url_path = '/'.join(path)\n            rel = '/'.join(url_path)\n"
        "            full_path = find_file(self.search_paths, rel)\n"))
+
+# ------------------------------------------------------------------ R14.g: the answer depends on this request and on the file system now
+_APP_ROUTES = "        routes = [('/<path*>', self.get_file_response)]\n"
+_FIND_CALL = ("            full_path = find_file(self.search_paths, path)\n"
+              "            if full_path is None:\n"
+              "                raise NotFound(is_breaking=False)\n")
+_SFR_BODY = ("        bfr = build_file_response\n"
+             "        resp = bfr(self.file_path,\n"
+             "                   cache_timeout=self.cache_timeout,\n"
+             "                   cached_modify_time=request.if_modified_since,\n"
+             "                   mimetype=self.mimetype,\n"
+             "                   file_wrapper=request.environ.get('wsgi.file_wrapper',\n"
+             "                                                    FileWrapper))\n"
+             "        return resp\n")
+_GUESS = "    if not mimetype:\n        mimetype, encoding = mimetypes.guess_type(path)\n"
+# a memo of where each path was found, kept on the application (found paths only)
+B('g14g_memo_on_app', ['C14'], 'R14.g',
+  (ST, _APP_ROUTES, "        self._located = {}\n" + _APP_ROUTES),
+  (ST, _FIND_CALL,
+   "            full_path = self._located.get(path)\n"
+   "            if full_path is None:\n"
+   "                full_path = find_file(self.search_paths, path)\n"
+   "                if full_path is None:\n"
+   "                    raise NotFound(is_breaking=False)\n"
+   "                self._located[path] = full_path\n"))
+# the same through a local alias of the application's dict and dict.setdefault
+B('g14g_memo_on_app_via_alias', ['C14'], 'R14.g',
+  (ST, _FIND_CALL,
+   "            memo = self.__dict__.setdefault('_located', {})\n"
+   "            if path not in memo:\n"
+   "                memo[path] = find_file(self.search_paths, path)\n"
+   "            full_path = memo[path]\n"
+   "            if full_path is None:\n"
+   "                raise NotFound(is_breaking=False)\n"))
+# module-level dict inside find_file
+B('g14g_memo_module_level', ['C14'], 'R14.g',
+  (ST, _FIND_DEF, "_FOUND = {}\n\n\n" + _FIND_DEF),
+  (ST, _LOOP,
+   "    key = (tuple(search_paths), rel_path)\n"
+   "    if key in _FOUND and isfile(_FOUND[key]):\n"
+   "        return _FOUND[key]\n"
+   "    for sr in search_paths:\n"
+   "        full_path = pjoin(sr, rel_path)\n"
+   "        if isfile(full_path):\n"
+   "            _FOUND[key] = full_path\n"
+   "            return full_path\n"
+   "    else:\n"
+   "        return None\n"))
+# the last lookup remembered in a global
+B('g14g_last_lookup_global', ['C14'], 'R14.g',
+  (ST, _FIND_DEF, "_LAST = (None, None)\n\n\n" + _FIND_DEF),
+  (ST, _FIND_CALL,
+   "            global _LAST\n"
+   "            if _LAST[0] == path:\n"
+   "                full_path = _LAST[1]\n"
+   "            else:\n"
+   "                full_path = find_file(self.search_paths, path)\n"
+   "            if full_path is None:\n"
+   "                raise NotFound(is_breaking=False)\n"
+   "            _LAST = (path, full_path)\n"))
+# the store handed to a public helper that writes into it
+B('g14g_memo_through_helper', ['C14'], 'R14.g',
+  (ST, _APP_ROUTES, "        self._located = {}\n" + _APP_ROUTES),
+  (ST, _CLS_ROUTE, "def remember(store, key, value):\n    store[key] = value\n    return value\n\n\n" + _CLS_ROUTE),
+  (ST, _FIND_CALL,
+   "            full_path = find_file(self.search_paths, path)\n"
+   "            if full_path is None:\n"
+   "                raise NotFound(is_breaking=False)\n"
+   "            remember(self._located, path, full_path)\n"))
+# functools.lru_cache on the mtime helper: Last-Modified / the 304 decision are those of the first request
+B('g14g_lru_cache_mtime', ['C14'], 'R14.g',
+  (ST, 'import mimetypes\n', 'import mimetypes\nimport functools\n'),
+  (ST, 'def get_file_mtime(path, rounding=0):\n', '@functools.lru_cache(maxsize=1024)\ndef get_file_mtime(path, rounding=0):\n'))
+B('g14g_lru_cache_rebinding', ['C14'], 'R14.g',
+  (ST, 'import mimetypes\n', 'import mimetypes\nfrom functools import lru_cache\n'),
+  (ST, _MT_FN, _MT_FN + "\n\nget_file_mtime = lru_cache(maxsize=None)(get_file_mtime)\n"))
+# a decorator of the package whose wrapper keeps results in a dict of the enclosing scope
+B('g14g_package_memo_decorator', ['C14'], 'R14.g',
+  (ST, _FIND_DEF,
+   "def _remembering(func):\n"
+   "    results = {}\n\n"
+   "    def wrapper(search_paths, path, limit_root=True):\n"
+   "        key = (tuple(search_paths), path, limit_root)\n"
+   "        if key not in results:\n"
+   "            results[key] = func(search_paths, path, limit_root)\n"
+   "        return results[key]\n"
+   "    return wrapper\n\n\n"
+   "@_remembering\n" + _FIND_DEF))
+# a mutable default argument as the memo (size of the file)
+B('g14g_default_argument_memo', ['C14'], 'R14.g',
+  (ST, 'def get_file_mtime(path, rounding=0):\n'
+       '    unix_mtime = round(os.path.getmtime(path), rounding)\n',
+       'def get_file_mtime(path, rounding=0, _known={}):\n'
+       '    if path not in _known:\n'
+       '        _known[path] = os.path.getmtime(path)\n'
+       '    unix_mtime = round(_known[path], rounding)\n'))
+# the guessed type remembered per path in an attribute of the function
+B('g14g_mimetype_memo_function_attribute', ['C14'], 'R14.g',
+  (ST, _GUESS,
+   "    if not mimetype:\n"
+   "        mimetype = build_file_response.guessed.get(path)\n"
+   "    if not mimetype:\n"
+   "        mimetype, encoding = mimetypes.guess_type(path)\n"
+   "        build_file_response.guessed[path] = mimetype\n"),
+  (ST, _CLS_ROUTE, "build_file_response.guessed = {}\n\n\n" + _CLS_ROUTE))
+# the single-file route keeps the response it built
+B('g14g_route_keeps_response', ['C14'], 'R14.g',
+  (ST, "        self.cache_timeout = cache_timeout\n        self.mimetype = mimetype\n\n    def get_file_response(self, request):\n",
+       "        self.cache_timeout = cache_timeout\n        self.mimetype = mimetype\n        self._headers = None\n\n    def get_file_response(self, request):\n"),
+  (ST, _SFR_BODY, _SFR_BODY.replace("        return resp\n",
+                                     "        if self._headers is None:\n"
+                                     "            self._headers = (resp.content_length, resp.last_modified)\n"
+                                     "        resp.content_length, resp.last_modified = self._headers\n"
+                                     "        return resp\n")))
+# the route serves a path taken from somewhere else than its configuration
+B('g14g_route_serves_other_path', ['C14'], 'R14.g',
+  (ST, "        resp = bfr(self.file_path,\n                   cache_timeout=self.cache_timeout,\n                   cached_modify_time=request.if_modified_since,\n                   mimetype=self.mimetype,",
+       "        resp = bfr(request.args.get('file', self.file_path),\n                   cache_timeout=self.cache_timeout,\n                   cached_modify_time=request.if_modified_since,\n                   mimetype=self.mimetype,"))
+# twins: per-request objects may be written freely; request-independent idempotent stores are no history
+T('g14g_found_path_initialised_none', ['C14'],
+  (ST, _LOOKUP,
+   "        full_path = None\n"
+   "        try:\n"
+   "            if not isinstance(path, (str, bytes)):\n"
+   "                path = '/'.join(path)\n"
+   "            full_path = find_file(self.search_paths, path)\n"
+   "        except (ValueError, IOError, OSError):\n"
+   "            raise Forbidden(is_breaking=False)\n"
+   "        if full_path is None:\n"
+   "            raise NotFound(is_breaking=False)\n"))
+T('g14g_writes_to_fresh_objects', ['C14'],
+  (ST, "    resp.content_type = mimetype\n", "    resp.content_type = mimetype\n    resp.headers['X-Content-Type-Options'] = 'nosniff'\n"),
+  (ST, "        bfr = build_file_response\n        resp = bfr(full_path,\n",
+       "        trail = {}\n        trail[path] = full_path\n        steps = []\n        steps.append(full_path)\n"
+       "        bfr = build_file_response\n        resp = bfr(full_path,\n"))
+T('g14g_constant_flag_and_counter', ['C14'],
+  (ST, _APP_ROUTES, "        self.requests_seen = 0\n        self.in_use = False\n" + _APP_ROUTES),
+  (ST, "        bfr = build_file_response\n        resp = bfr(full_path,\n", "        self.in_use = True\n        self.requests_seen += 1\n        bfr = build_file_response\n        resp = bfr(full_path,\n"))
+T('g14g_neutral_decorators', ['C14'],
+  (ST, 'from datetime import datetime\n', 'from datetime import datetime\nfrom contextlib import contextmanager\n'),
+  (ST, _BFR_DEF,
+   "@contextmanager\n"
+   "def _as_forbidden():\n"
+   "    try:\n"
+   "        yield\n"
+   "    except (ValueError, IOError, OSError):\n"
+   "        raise Forbidden(is_breaking=False)\n\n\n" + _BFR_DEF),
+  (ST, "        try:\n            mtime = get_file_mtime(path)\n        except (ValueError, IOError, OSError):  # TODO: winnow this down\n            raise Forbidden(is_breaking=False)\n",
+       "        with _as_forbidden():\n            mtime = get_file_mtime(path)\n"))
+
+# ------------------------------------------------------------------ R14.b: helpers the endpoints call keep the non-breaking discipline
+B('g14b_public_lookup_method_breaking', ['C14'], 'R14.b',
+  (ST, "    def get_file_response(self, path, request):\n        try:\n",
+       "    def locate(self, path):\n"
+       "        if not isinstance(path, (str, bytes)):\n"
+       "            path = '/'.join(path)\n"
+       "        full_path = find_file(self.search_paths, path)\n"
+       "        if full_path is None:\n"
+       "            raise NotFound()\n"
+       "        return full_path\n\n"
+       "    def get_file_response(self, path, request):\n        try:\n"),
+  (ST, "            if not isinstance(path, (str, bytes)):\n                path = '/'.join(path)\n            full_path = find_file(self.search_paths, path)\n"
+       "            if full_path is None:\n                raise NotFound(is_breaking=False)\n",
+       "            full_path = self.locate(path)\n"))
+B('g14b_public_function_breaking', ['C14'], 'R14.b',
+  (ST, _BFR_DEF, "def ensure_regular_file(path):\n    if not isfile(path):\n        raise NotFound()\n    return path\n\n\n" + _BFR_DEF),
+  (ST, "    if not isfile(path):\n        raise NotFound(is_breaking=False)\n    try:\n        file_obj = open(path, 'rb')\n",
+       "    if not isfile(path):\n        raise NotFound(is_breaking=False)\n    ensure_regular_file(path)\n    try:\n        file_obj = open(path, 'rb')\n"))
+
+# ------------------------------------------------------------------ R14.h: test, open, size and type guess speak about the one served path
+_OPEN_LINE = "        file_obj = open(path, 'rb')\n"
+_SIZE_LINE = "        fsize = os.path.getsize(path)\n"
+T('g14h_mode_constant_and_copy', ['C14'],
+  (ST, "IS_WINDOWS = sys.platform == 'win32'\n", "IS_WINDOWS = sys.platform == 'win32'\n_READ_BYTES = 'rb'\n"),
+  (ST, _OPEN_LINE, "        served = path\n        file_obj = open(served, mode=_READ_BYTES)\n"),
+  (ST, _SIZE_LINE, "        fsize = os.path.getsize(served)\n"))
+B('g14h_text_mode', ['C14'], 'R14.h', (ST, _OPEN_LINE, "        file_obj = open(path)\n"))
+B('g14h_text_mode_constant', ['C14'], 'R14.h',
+  (ST, "IS_WINDOWS = sys.platform == 'win32'\n", "IS_WINDOWS = sys.platform == 'win32'\n_READ_MODE = 'r'\n"),
+  (ST, _OPEN_LINE, "        file_obj = open(path, _READ_MODE)\n"))
+B('g14h_opened_for_update', ['C14'], 'R14.h', (ST, _OPEN_LINE, "        file_obj = open(path, 'r+b')\n"))
+B('g14h_size_of_sibling', ['C14'], 'R14.h',
+  (ST, _SIZE_LINE, "        packed = path + '.gz'\n        fsize = os.path.getsize(packed if isfile(packed) else path)\n"))
+B('g14h_opens_sibling', ['C14'], 'R14.h',
+  (ST, _OPEN_LINE, "        source = path\n        if isfile(path + '.gz'):\n            source = path + '.gz'\n        file_obj = open(source, 'rb')\n"))
+B('g14h_fallback_path_rebound', ['C14'], 'R14.h',
+  (ST, "    if not isfile(path):\n        raise NotFound(is_breaking=False)\n",
+       "    if not isfile(path):\n        path = path + '.html'\n    if not isfile(path):\n        raise NotFound(is_breaking=False)\n"))
+
+# ------------------------------------------------------------------ R14.i: first search directory wins
+_APP_STORE = "        self.search_paths = search_paths\n"
+T('g14i_copies_keep_order', ['C14'],
+  (ST, _APP_STORE, "        self.search_paths = list(search_paths)\n"),
+  (ST, "    for sr in search_paths:\n", "    roots = tuple(search_paths)\n    for sr in roots:\n"))
+T('g14i_found_then_break', ['C14'],
+  (ST, _LOOP,
+   "    found = None\n"
+   "    for sr in search_paths:\n"
+   "        full_path = pjoin(sr, rel_path)\n"
+   "        if isfile(full_path):\n"
+   "            found = full_path\n"
+   "            break\n"
+   "    return found\n"))
+B('g14i_reversed_loop', ['C14'], 'R14.i', (ST, "    for sr in search_paths:\n", "    for sr in reversed(search_paths):\n"))
+B('g14i_sorted_on_app', ['C14'], 'R14.i', (ST, _APP_STORE, "        self.search_paths = sorted(search_paths)\n"))
+B('g14i_set_dedup_on_app', ['C14'], 'R14.i', (ST, _APP_STORE, "        unique = set(search_paths)\n        self.search_paths = list(unique)\n"))
+B('g14i_last_match_wins', ['C14'], 'R14.i',
+  (ST, _LOOP,
+   "    found = None\n"
+   "    for sr in search_paths:\n"
+   "        full_path = pjoin(sr, rel_path)\n"
+   "        if isfile(full_path):\n"
+   "            found = full_path\n"
+   "    return found\n"))
+B('g14i_next_over_backwards_slice', ['C14'], 'R14.i',
+  (ST, _LOOP, "    candidates = (pjoin(sr, rel_path) for sr in search_paths[::-1])\n    return next((c for c in candidates if isfile(c)), None)\n"))
+
+# ------------------------------------------------------------------ R14.j: a 304 carries no body
+_RESP_NEW = "    resp = response_type('')\n"
+_S304 = "            resp.status_code = 304\n"
+T('g14j_empty_body_spellings', ['C14'],
+  (ST, "IS_WINDOWS = sys.platform == 'win32'\n", "IS_WINDOWS = sys.platform == 'win32'\n_NO_BODY = ''\n"),
+  (ST, _RESP_NEW, "    resp = response_type(response=_NO_BODY)\n"))
+B('g14j_created_with_text', ['C14'], 'R14.j', (ST, _RESP_NEW, "    resp = response_type('Not Modified')\n"))
+B('g14j_data_on_304', ['C14'], 'R14.j', (ST, _S304, _S304 + "            resp.data = 'not modified since %s' % mtime\n"))
+B('g14j_set_data_before_branch', ['C14'], 'R14.j',
+  (ST, "        resp.cache_control.public = True\n", "        resp.cache_control.public = True\n        resp.set_data(b'unchanged')\n"))
+B('g14j_returns_other_object', ['C14'], 'R14.j',
+  (ST, _S304 + "            resp.cache_control.max_age = cache_timeout\n            return resp\n",
+       _S304 + "            resp.cache_control.max_age = cache_timeout\n            return response_type(open(path, 'rb').read())\n"))
+B('g14a_found_then_break_exists', ['C14'], 'R14.a',
+  (ST, _LOOP,
+   "    found = None\n"
+   "    for sr in search_paths:\n"
+   "        full_path = pjoin(sr, rel_path)\n"
+   "        if os.path.exists(full_path):\n"
+   "            found = full_path\n"
+   "            break\n"
+   "    return found\n"))
+
+# ------------------------------------------------------------------ R14.k: Last-Modified and the 304 decision are the same function of the file
+_MT_OPEN = "        mtime = get_file_mtime(path)\n        fsize = os.path.getsize(path)\n"
+_MT_COND = "            mtime = get_file_mtime(path)\n        except (ValueError, IOError, OSError):  # TODO"
+T('g14k_default_spelled_out', ['C14'],
+  (ST, _MT_OPEN, "        mtime = get_file_mtime(path, rounding=0)\n        fsize = os.path.getsize(path)\n"),
+  (ST, _MT_COND, "            mtime = get_file_mtime(path, 0)\n        except (ValueError, IOError, OSError):  # TODO"))
+T('g14k_same_constant_both_sides', ['C14'],
+  (ST, "IS_WINDOWS = sys.platform == 'win32'\n", "IS_WINDOWS = sys.platform == 'win32'\n_WHOLE_SECONDS = 0\n"),
+  (ST, _MT_OPEN, "        mtime = get_file_mtime(path, rounding=_WHOLE_SECONDS)\n        fsize = os.path.getsize(path)\n"),
+  (ST, _MT_COND, "            current = get_file_mtime(path, _WHOLE_SECONDS)\n            mtime = current\n        except (ValueError, IOError, OSError):  # TODO"))
+B('g14k_header_rounded_to_ten_seconds', ['C14'], 'R14.k',
+  (ST, _MT_OPEN, "        mtime = get_file_mtime(path, rounding=-1)\n        fsize = os.path.getsize(path)\n"))
+B('g14k_header_coarser_via_constant', ['C14'], 'R14.k',
+  (ST, "IS_WINDOWS = sys.platform == 'win32'\n", "IS_WINDOWS = sys.platform == 'win32'\n_HEADER_ROUNDING = -2\n"),
+  (ST, _MT_OPEN, "        granularity = _HEADER_ROUNDING\n        mtime = get_file_mtime(path, granularity)\n        fsize = os.path.getsize(path)\n"))
+B('g14k_comparison_coarser', ['C14'], 'R14.k',
+  (ST, _MT_COND, "            mtime = get_file_mtime(path, rounding=-1)\n        except (ValueError, IOError, OSError):  # TODO"))
+
+# ------------------------------------------------------------------ R14.l: the Content-Type is given, guessed, or a configured default chosen by peeking
+_CHOICE = ("        if peeked and is_binary:\n"
+           "            mimetype = default_binary_mime\n"
+           "        else:\n"
+           "            mimetype = default_text_mime\n")
+T('g14l_guess_by_basename_and_flag', ['C14'],
+  (ST, _GUESS, "    if not mimetype:\n        mimetype = mimetypes.guess_type(os.path.basename(path))[0]\n"),
+  (ST, "        is_binary = is_binary_string(peeked)\n" + _CHOICE,
+       "        looks_binary = bool(peeked) and is_binary_string(peeked)\n"
+       "        if looks_binary:\n"
+       "            mimetype = default_binary_mime\n"
+       "        else:\n"
+       "            mimetype = default_text_mime\n"))
+T('g14l_text_first', ['C14'],
+  (ST, _CHOICE,
+   "        mimetype = default_text_mime\n"
+   "        if peeked and is_binary:\n"
+   "            mimetype = default_binary_mime\n"))
+B('g14l_defaults_swapped', ['C14'], 'R14.l',
+  (ST, _CHOICE,
+   "        if peeked and is_binary:\n"
+   "            mimetype = default_text_mime\n"
+   "        else:\n"
+   "            mimetype = default_binary_mime\n"))
+B('g14l_test_inverted', ['C14'], 'R14.l',
+  (ST, _CHOICE,
+   "        if not peeked or is_binary:\n"
+   "            mimetype = default_text_mime\n"
+   "        else:\n"
+   "            mimetype = default_binary_mime\n"))
+B('g14l_constant_instead_of_default', ['C14'], 'R14.l',
+  (ST, _CHOICE,
+   "        if peeked and is_binary:\n"
+   "            mimetype = default_binary_mime\n"
+   "        else:\n"
+   "            mimetype = 'text/html'\n"))
+B('g14l_no_guess', ['C14'], 'R14.l', (ST, _GUESS, ""))
+B('g14l_binary_test_on_path', ['C14'], 'R14.l',
+  (ST, "        is_binary = is_binary_string(peeked)\n", "        is_binary = is_binary_string(path.encode('utf-8'))\n"))
+B('g14h_guess_for_other_name', ['C14'], 'R14.h',
+  (ST, _GUESS, "    if not mimetype:\n        mimetype, encoding = mimetypes.guess_type('index.html')\n"))
+
+# ------------------------------------------------------------------ R14.i: the order is followed through functions of the package and accumulators
+_APP_NORMALISE = "        if isinstance(search_paths, (str, bytes)):\n            search_paths = [search_paths]\n"
+T('g14i_checked_paths_keep_order', ['C14'],
+  (ST, _BFR_DEF,
+   "def absolute_search_paths(search_paths):\n"
+   "    checked = []\n"
+   "    for search_path in search_paths:\n"
+   "        abs_path = os.path.abspath(search_path)\n"
+   "        if abs_path not in checked:\n"
+   "            checked.append(abs_path)\n"
+   "    return checked\n\n\n" + _BFR_DEF),
+  (ST, _APP_NORMALISE, _APP_NORMALISE + "        search_paths = absolute_search_paths(search_paths)\n"))
+B('g14i_checked_paths_unique_via_set', ['C14'], 'R14.i',
+  (ST, _BFR_DEF,
+   "def absolute_search_paths(search_paths):\n"
+   "    return list(set(os.path.abspath(p) for p in search_paths))\n\n\n" + _BFR_DEF),
+  (ST, _APP_NORMALISE, _APP_NORMALISE + "        search_paths = absolute_search_paths(search_paths)\n"))
+B('g14i_checked_paths_sorted_in_place', ['C14'], 'R14.i',
+  (ST, _BFR_DEF,
+   "def absolute_search_paths(search_paths):\n"
+   "    checked = []\n"
+   "    for search_path in search_paths:\n"
+   "        checked.append(os.path.abspath(search_path))\n"
+   "    checked.sort()\n"
+   "    return checked\n\n\n" + _BFR_DEF),
+  (ST, _APP_NORMALISE, _APP_NORMALISE + "        search_paths = absolute_search_paths(search_paths)\n"))
+B('g14i_paths_collected_in_set_method', ['C14'], 'R14.i',
+  (ST, _APP_STORE,
+   "        seen = set()\n"
+   "        for search_path in search_paths:\n"
+   "            seen.add(search_path)\n"
+   "        self.search_paths = list(seen)\n"))
+
+# ------------------------------------------------------------------ R14.m: configuration reaches build_file_response unchanged
+T('g14m_positional_and_locals', ['C14'],
+  (ST, "        resp = bfr(self.file_path,\n                   cache_timeout=self.cache_timeout,\n                   cached_modify_time=request.if_modified_since,\n                   mimetype=self.mimetype,",
+       "        max_age = self.cache_timeout\n        resp = bfr(self.file_path, max_age, request.if_modified_since, self.mimetype,"))
+B('g14m_route_drops_cache_timeout', ['C14'], 'R14.m',
+  (ST, "        resp = bfr(self.file_path,\n                   cache_timeout=self.cache_timeout,\n", "        resp = bfr(self.file_path,\n"))
+B('g14m_defaults_swapped_in_call', ['C14'], 'R14.m',
+  (ST, "                   default_text_mime=self.default_text_mime,\n                   default_binary_mime=self.default_binary_mime,\n",
+       "                   default_text_mime=self.default_binary_mime,\n                   default_binary_mime=self.default_text_mime,\n"))
+B('g14m_defaults_swapped_in_init', ['C14'], 'R14.m',
+  (ST, "        self.default_text_mime = default_text_mime\n        self.default_binary_mime = default_binary_mime\n",
+       "        self.default_text_mime, self.default_binary_mime = default_binary_mime, default_text_mime\n"))
+B('g14m_caching_off_by_default', ['C14'], 'R14.m', (ST, "DEFAULT_MAX_AGE = 360\n", "DEFAULT_MAX_AGE = 0\n"))
+B('g14m_caching_off_by_default_param', ['C14'], 'R14.m',
+  (ST, "                 check_paths=True,\n                 cache_timeout=DEFAULT_MAX_AGE,\n", "                 check_paths=True,\n                 cache_timeout=None,\n"))
+B('g14m_route_uses_unmodified_since', ['C14'], 'R14.m',
+  (ST, "                   cached_modify_time=request.if_modified_since,\n                   mimetype=self.mimetype,",
+       "                   cached_modify_time=request.if_unmodified_since,\n                   mimetype=self.mimetype,"))
+B('g14m_timeout_clamped_in_init', ['C14'], 'R14.m',
+  (ST, "        self.cache_timeout = cache_timeout\n        self.mimetype = mimetype\n",
+       "        self.cache_timeout = cache_timeout if check_file else 0\n        self.mimetype = mimetype\n"))
+
+# ------------------------------------------------------------------ R14.n: peeking leaves the handle where it was
+_PEEK_TAIL = "    cur_pos = file_obj.tell()\n    peek_data = file_obj.read(size)\n    file_obj.seek(cur_pos)\n    return peek_data\n"
+T('g14n_restore_in_finally', ['C14'],
+  (ST, _PEEK_TAIL,
+   "    start = file_obj.tell()\n"
+   "    try:\n"
+   "        return file_obj.read(size)\n"
+   "    finally:\n"
+   "        file_obj.seek(start)\n"))
+B('g14n_no_seek_back', ['C14'], 'R14.n', (ST, _PEEK_TAIL, "    peek_data = file_obj.read(size)\n    return peek_data\n"))
+B('g14n_seek_back_only_when_data', ['C14'], 'R14.n',
+  (ST, _PEEK_TAIL,
+   "    cur_pos = file_obj.tell()\n    peek_data = file_obj.read(size)\n    if not peek_data:\n        return peek_data\n    if len(peek_data) < size:\n        return peek_data\n"
+   "    file_obj.seek(cur_pos)\n    return peek_data\n"))
+B('g14n_position_noted_after_read', ['C14'], 'R14.n',
+  (ST, _PEEK_TAIL, "    peek_data = file_obj.read(size)\n    cur_pos = file_obj.tell()\n    file_obj.seek(cur_pos)\n    return peek_data\n"))
+B('g14n_relative_seek', ['C14'], 'R14.n',
+  (ST, _PEEK_TAIL, "    cur_pos = file_obj.tell()\n    peek_data = file_obj.read(size)\n    file_obj.seek(cur_pos, 1)\n    return peek_data\n"))
+B('g14n_caller_reads_header', ['C14'], 'R14.n',
+  (ST, "    resp.response = file_wrapper(file_obj)\n", "    signature = file_obj.read(4)\n    resp.response = file_wrapper(file_obj)\n"))
+
+# ------------------------------------------------------------------ R14.b: the error classes are the package's own
+B('g14b_werkzeug_notfound', ['C14'], 'R14.b',
+  (ST, "from .errors import Forbidden, NotFound\n", "from .errors import Forbidden\nfrom werkzeug.exceptions import NotFound\n"))
+B('g14b_werkzeug_forbidden_alias', ['C14'], 'R14.b',
+  (ST, "from .errors import Forbidden, NotFound\n", "from .errors import NotFound\nfrom werkzeug import exceptions as _wz\n\nForbidden = _wz.Forbidden\n"))
+
+# ------------------------------------------------------------------ R14.g: one response object shared by all requests
+B('g14g_shared_response_template', ['C14'], 'R14.g',
+  (ST, _BFR_DEF, "_BLANK = Response('')\n\n\n" + _BFR_DEF),
+  (ST, "    resp = response_type('')\n", "    resp = _BLANK\n"))
+B('g14g_response_default_argument', ['C14'], 'R14.g',
+  (ST, "                        response_type=Response):\n    resp = response_type('')\n",
+       "                        response_type=Response,\n                        resp=Response('')):\n"))
+B('g14m_app_fixes_mimetype', ['C14'], 'R14.m',
+  (ST, "                   mimetype=None,\n                   default_text_mime=self.default_text_mime,", "                   mimetype=self.default_text_mime,\n                   default_text_mime=self.default_text_mime,"))
+T('g14m_app_omits_mimetype', ['C14'],
+  (ST, "                   mimetype=None,\n                   default_text_mime=self.default_text_mime,", "                   default_text_mime=self.default_text_mime,"))
+
+# ------------------------------------------------------------------ R14.a / R14.i: first regular file through filter()
+T('g14i_next_filter_isfile', ['C14'],
+  (ST, _LOOP, "    candidates = (pjoin(sr, rel_path) for sr in search_paths)\n    return next(filter(isfile, candidates), None)\n"))
+B('g14i_next_filter_exists', ['C14'], 'R14.a',
+  (ST, _LOOP, "    candidates = (pjoin(sr, rel_path) for sr in search_paths)\n    return next(filter(os.path.exists, candidates), None)\n"))
+B('g14i_next_filter_reversed', ['C14'], 'R14.i',
+  (ST, _LOOP, "    candidates = [pjoin(sr, rel_path) for sr in search_paths]\n    return next(filter(isfile, reversed(candidates)), None)\n"))
